@@ -290,3 +290,31 @@ SPECS["C15"]["queries"] += [
     Q("producer_m3", "c15_queue.c", func="harness_producer", defs={"NM": 3}, stubdirs=["stubs_rg"], unwind=5, timeout=1200, cost=7,
       bounds="one insert interrupted between its load and each CAS attempt by up to 2 other inserts and one consumer extraction (CAS retries <= 4)"),
 ]
+
+GEOMS = {1: "hexagon", 2: "square", 3: "torus", 4: "ring", 5: "bidring", 6: "star", 7: "mesh", 8: "graph"}
+C19_LOOPS = ["harness_consistency.0", "harness_consistency.1", "harness_consistency.2", "mk_rng.0", "mk_topology.0", "get_neighbor_mesh.0", "get_random_neighbor.0",
+             "get_random_neighbor.1", "vInitializeTopology.0", "vInitializeTopology.1", "vInitializeTopology.2", "IsNeighbor.0", "IsNeighbor.1",
+             "IsNeighbor.2", "IsNeighbor.3", "AddTopologyLink.0", "AddTopologyLink.1", "AddTopologyLink.2", "get_neighbor_graph.0",
+             "ReleaseTopology.0", "ReleaseTopology.1", "ReleaseTopology.2", "any_perm.0", "any_perm.1", "CountDirections.0", "CountDirections.1", "memcpy.0"]
+
+
+def c19(name, func, g, b, tier, timeout=900, **kw):
+    return Q(name, "c19_topology.c", tier=tier, func=func, defs={"GEOM": g, "B": b}, unwind=2, unwindset={l: 10 for l in C19_LOOPS},
+             spin_loops=["get_neighbor_mesh.0"], timeout=timeout,
+             bounds="%s, width/height/regions 1..%d, every source region, every direction, all generator draws (recursion bound 2, proved sufficient by the recursion unwinding assertion)" % (GEOMS[g], b), **kw)
+
+
+SPECS["C19"] = dict(
+    level="model_checking",
+    encodes=["lib/topology/topology.c:GetReceiver", "CountDirections", "IsNeighbor", "CountRegions", "get_neighbor_* (all eight geometries)", "get_random_neighbor", "AddTopologyLink", "vInitializeTopology", "ReleaseTopology"],
+    assumptions=["Random()/RandomRange() are contract stubs: a deterministic function of the calling LP's generator position over a solver-chosen draw table (C18 discharges the range contract); the rejection loop of the mesh is unwound 10 times",
+                 "the topology struct is built directly with a constant geometry (the real initialiser is checked by its own query); graphs are built with the real AddTopologyLink, <= 3 links",
+                 "unknown-loop warnings: loop ids listed for geometries that do not use them are ignored by CBMC"],
+    outside=["sizes above the stated bound", "concurrent calls are covered through the purity argument (the result depends on nothing but the caller's generator), not by a thread encoding"],
+    queries=[c19("cons_%s_b5" % GEOMS[g], "harness_consistency", g, 5, "quick") for g in range(1, 9)]
+    + [c19("init_%s" % GEOMS[g], "harness_init", g, 5, "quick") for g in (2, 4, 8)]
+    + [c19("pure_square_b3", "harness_purity", 2, 3, "quick", cost=4), c19("pure_torus_b3", "harness_purity", 3, 3, "quick", cost=4),
+       c19("pure_hexagon_b2", "harness_purity", 1, 2, "quick", timeout=1800, cost=9)]
+    + [c19("cons_%s_b9" % GEOMS[g], "harness_consistency", g, 9, "thorough", timeout=1800) for g in range(1, 9)]
+    + [c19("pure_square_b4", "harness_purity", 2, 4, "thorough", timeout=2400), c19("pure_torus_b4", "harness_purity", 3, 4, "thorough", timeout=2400)],
+)
